@@ -600,6 +600,40 @@ func c3BoundaryInts() []*big.Int {
 	return vals
 }
 
+// c3BoundaryMagnitudes: 2^e-1, 2^e, 2^e+1 around the machine word sizes.
+func c3BoundaryMagnitudes() []*big.Int {
+	var out []*big.Int
+	for _, e := range []uint{31, 32, 62, 63, 64, 127, 128} {
+		p := new(big.Int).Lsh(big.NewInt(1), e)
+		out = append(out, new(big.Int).Sub(p, big.NewInt(1)), p, new(big.Int).Add(p, big.NewInt(1)))
+	}
+	return out
+}
+
+// c3CoprimeSmall returns a small integer ≥ 2 with no common factor with m.
+func c3CoprimeSmall(m *big.Int) *big.Int {
+	for _, k := range []int64{3, 2, 5, 7, 11, 13} {
+		d := big.NewInt(k)
+		if new(big.Int).GCD(nil, nil, new(big.Int).Abs(m), d).Cmp(big.NewInt(1)) == 0 {
+			return d
+		}
+	}
+	return big.NewInt(17)
+}
+
+// c3RandInt: an integer of one of the bit-size classes, or a word-size boundary ± a small offset.
+func c3RandInt(r *lib.Rng) *big.Int {
+	if r.Chance(25) {
+		mags := c3BoundaryMagnitudes()
+		n := new(big.Int).Add(mags[r.Intn(len(mags))], big.NewInt(int64(r.Intn(7)-3)))
+		if r.Bool() {
+			n.Neg(n)
+		}
+		return n
+	}
+	return r.BigBits([]int{4, 8, 31, 33, 62, 63, 64, 65, 100, 200}[r.Intn(10)])
+}
+
 var c3SymbolNames = []string{
 	"abc", "foo-bar", "*special*", "a", "FooBar", "CAPS", "x1", "a.b", "a+b", "-", "+", "1+", "1-", "<=", "a_b", "a%b", "a$",
 	"a:b", "&rest", "a~", "a^b", "a=b", "a<b>", "x*",
@@ -682,6 +716,40 @@ func (g *c3Gen) sweeps() {
 			big1 := new(big.Int).Lsh(big.NewInt(1), 70)
 			g.add(c3Ratio(new(big.Int).Add(big1, big.NewInt(1)), big1), cf, fmt.Sprintf("kind=ratio var=base:%s,radix:%v", c3BaseClass(base), radix))
 			g.add(c3Ratio(big.NewInt(-3), new(big.Int).Add(big1, big.NewInt(1))), cf, fmt.Sprintf("kind=ratio var=base:%s,radix:%v", c3BaseClass(base), radix))
+			// every word-size boundary (2^31 .. 2^128, ±1) as numerator (both signs) over a small
+			// denominator and as denominator under a small numerator
+			cell := fmt.Sprintf("kind=ratio class=boundary var=base:%s,radix:%v", c3BaseClass(base), radix)
+			for _, m := range c3BoundaryMagnitudes() {
+				d := c3CoprimeSmall(m)
+				g.add(c3Ratio(m, d), cf, cell)
+				g.add(c3Ratio(new(big.Int).Neg(m), d), cf, cell)
+				g.add(c3Ratio(d, m), cf, cell)
+				g.add(c3Ratio(new(big.Int).Neg(d), m), cf, cell)
+			}
+		}
+	}
+	// boundary numerator × boundary denominator, all pairs: under four configurations in the quick
+	// tier, under every base × radix in the thorough tier
+	pairCfgs := []c3Cfg{}
+	for base := 2; base <= 36; base++ {
+		for _, radix := range []bool{false, true} {
+			if thorough || (base == 10 && !radix) || (radix && (base == 2 || base == 16 || base == 36)) {
+				cf := def
+				cf.base, cf.radix = base, radix
+				pairCfgs = append(pairCfgs, cf)
+			}
+		}
+	}
+	mags := c3BoundaryMagnitudes()
+	for _, cf := range pairCfgs {
+		cell := fmt.Sprintf("kind=ratio class=boundary-pair var=base:%s,radix:%v", c3BaseClass(cf.base), cf.radix)
+		for _, n := range mags {
+			for _, d := range mags {
+				if q := c3Ratio(n, d); q.kind == "ratio" {
+					g.add(q, cf, cell)
+					g.add(c3Ratio(new(big.Int).Neg(n), d), cf, cell)
+				}
+			}
 		}
 	}
 	// S3 strings: one special character in the middle / at the ends; readably on and off
@@ -701,6 +769,93 @@ func (g *c3Gen) sweeps() {
 		for _, s := range []string{"", "plain", "two words", `say "hi"`, `back\slash`, `\"`, `"`, `\`, "tab\there", "line\nbreak", "\x00\x01\x1f\x7f",
 			"é∑😀", "a b c", "\\u0041", "\\n", "ends with \\"} {
 			g.add(c3Str(s), cf, fmt.Sprintf("kind=string class=%s var=readably:%v", c3StrClass(s), readably))
+		}
+	}
+	// size thresholds: strings, symbols and lists around buffer / block sizes, deep nesting
+	for _, n := range []int{63, 64, 65, 255, 256, 257, 4095, 4096, 4097, 65535, 65536, 65537} {
+		body := strings.Repeat("a", n)
+		mid := body[:n/2] + "\"" + body[n/2+1:]
+		uni := body[:n-1] + "é"
+		for _, str := range []string{body, mid, uni} {
+			g.add(c3Str(str), def, fmt.Sprintf("kind=string class=length-%d", n))
+		}
+		if n <= 4097 {
+			for _, name := range []string{"s" + body[1:], "s " + body[2:], body[:n-1] + "é"} {
+				g.add(c3Sym(name), def, fmt.Sprintf("kind=symbol class=length-%d var=top", n))
+				g.add(c3List(c3Sym("x"), c3Sym(name)), def, fmt.Sprintf("kind=symbol class=length-%d var=in-list", n))
+			}
+		}
+	}
+	for _, n := range []int{100, 1000, 5000} {
+		elems := make([]*c3Obj, n)
+		for i := range elems {
+			elems[i] = c3I(int64(i))
+		}
+		for _, pretty := range []bool{false, true} {
+			cf := def
+			cf.pretty = pretty
+			g.add(c3List(elems...), cf, fmt.Sprintf("kind=list class=length-%d var=pretty:%v", n, pretty))
+			g.add(c3Vec(elems...), cf, fmt.Sprintf("kind=vector class=length-%d var=pretty:%v", n, pretty))
+			g.add(c3Dotted(c3I(-1), elems...), cf, fmt.Sprintf("kind=dotted-list class=length-%d var=pretty:%v", n, pretty))
+		}
+	}
+	for _, depth := range []int{50, 150} {
+		deepL := c3List(c3Sym("leaf"))
+		for i := 0; i < depth; i++ {
+			deepL = c3List(deepL)
+		}
+		// nested vectors: slip lays every nested vector out again from column 0 (and so does the
+		// model, at a cost that doubles per level), so the vector nesting stays at 12
+		deepV := c3Vec(c3Sym("leaf"))
+		for i := 0; i < 12; i++ {
+			deepV = c3Vec(c3I(int64(i)), deepV)
+		}
+		for _, pretty := range []bool{false, true} {
+			cf := def
+			cf.pretty = pretty
+			g.add(deepL, cf, fmt.Sprintf("kind=list class=depth-%d var=pretty:%v", depth, pretty))
+			if depth == 50 {
+				g.add(deepV, cf, fmt.Sprintf("kind=vector class=depth-12 var=pretty:%v", pretty))
+			}
+		}
+	}
+	// adjacency: every ordered pair of leaf kinds next to each other in a list (reader or printer
+	// state that leaks from one token into the next: escape buffer, temporary base, #-number)
+	adj := []*c3Obj{
+		c3Str("plain"), c3Str("q\"uote"), c3Str("ctl\x01\u2028"), c3Str(""),
+		c3Sym("a b"), c3Sym("a|b\\c"), c3Sym("x\x02y"), c3Sym("bare"), c3Sym(":key"), c3Sym("123"), c3Sym(""),
+		c3I(255), c3Int(new(big.Int).Lsh(big.NewInt(1), 70)), c3I(-1), c3Ratio(big.NewInt(-5), big.NewInt(7)),
+		c3Chr('a'), c3Chr(' '), c3Chr(1), c3Chr('('), c3Chr(0x1f600),
+		c3Vec(c3I(1), c3Sym("v")), c3Vec(), c3Arr([]int{1, 2}, []*c3Obj{c3Str("e"), c3I(2)}),
+		c3Nil(), c3T(), c3Dotted(c3I(2), c3Sym("d")), c3List(c3Sym("n"), c3List(c3Str("s"))),
+		c3Single(1.5), c3Double(-2.5e10),
+	}
+	adjKind := func(o *c3Obj) string {
+		k := o.kind
+		switch o.kind {
+		case "str":
+			k += ":" + c3StrClass(o.s)
+		case "sym":
+			k += ":" + c3SymClass(o.s)
+		case "chr":
+			k += fmt.Sprintf(":U+%04X", o.r)
+		case "int":
+			k += fmt.Sprintf(":%dbit", o.n.BitLen())
+		}
+		return k
+	}
+	for _, cfv := range []struct {
+		base   int
+		radix  bool
+		pretty bool
+	}{{10, false, false}, {16, true, false}, {7, true, true}} {
+		cf := def
+		cf.base, cf.radix, cf.pretty, cf.margin = cfv.base, cfv.radix, cfv.pretty, 20
+		for _, a := range adj {
+			for _, b := range adj {
+				cell := fmt.Sprintf("kind=adjacent first=%s second=%s var=base:%s,radix:%v,pretty:%v", adjKind(a), adjKind(b), c3BaseClass(cfv.base), cfv.radix, cfv.pretty)
+				g.add(c3List(a, b, a), cf, cell)
+			}
 		}
 	}
 	// S4 characters: every ASCII code, sampled and boundary Unicode scalars
@@ -811,10 +966,13 @@ func (g *c3Gen) sweeps() {
 		cf := def
 		cf.readably = readably
 		v := fmt.Sprintf("var=readably:%v", readably)
-		for _, f := range []float64{0, 1, -1, 0.5, 1.5, 0.1, 1e10, 1e21, 1e-7, 123456.789, 3.4028234663852886e38, 1.401298464324817e-45} {
+		for _, f := range []float64{0, 1, -1, 0.5, 1.5, 0.1, 1e10, 1e21, 1e-7, 123456.789, 3.4028234663852886e38, 1.401298464324817e-45,
+			16777216, 16777218, 2147483648, 4294967296, 9223372036854775808, 18446744073709551616, -9223372036854775808, 1e7, 1e-4, 99999.99} {
 			g.add(c3Single(float32(f)), cf, "kind=single-float "+v)
 		}
-		for _, f := range []float64{0, 1, -1, 0.5, 1.5, 0.1, 1e10, 1e21, 1e22, 1e-7, 123456.789, 1.7976931348623157e308, 5e-324, 2.2250738585072014e-308, 9007199254740993} {
+		for _, f := range []float64{0, 1, -1, 0.5, 1.5, 0.1, 1e10, 1e21, 1e22, 1e-7, 123456.789, 1.7976931348623157e308, 5e-324, 2.2250738585072014e-308, 9007199254740993,
+			9007199254740992, 9007199254740994, 2147483648, 4294967296, 9223372036854775808, 18446744073709551616, -9223372036854775808, 9223372036854774784,
+			1e15, 1e16, 1e17, 123456789012345678, 1e20, 1e-4, 1e-5, 0.001} {
 			g.add(c3Double(f), cf, "kind=double-float "+v)
 		}
 		for _, s := range []string{"1.5L0", "1.0L0", "-2.25L3", "1.234567890123456789012345L10", "1.0L-5", "3.141592653589793238462643383279L0", "1L100",
@@ -875,15 +1033,15 @@ func (g *c3Gen) randLeaf(floats bool) *c3Obj {
 		case 1:
 			return c3T()
 		case 2, 3:
-			bits := []int{4, 8, 31, 33, 62, 63, 64, 65, 100, 200}[r.Intn(10)]
-			return c3Int(r.BigBits(bits))
+			return c3Int(c3RandInt(r))
 		case 4:
-			d := r.BigBits([]int{4, 31, 64, 100}[r.Intn(4)])
+			// numerator and denominator each from the same size classes as the integers
+			d := c3RandInt(r)
 			d.Abs(d)
 			if d.Sign() == 0 {
 				d.SetInt64(7)
 			}
-			return c3Ratio(r.BigBits([]int{8, 40, 80}[r.Intn(3)]), d)
+			return c3Ratio(c3RandInt(r), d)
 		case 5, 6:
 			return c3Str(g.randString())
 		case 7:
@@ -1319,7 +1477,11 @@ func c03Run(c *lib.Ctx, cases []c3Case, nSweep int) {
 			}
 			sig := c3Signature(cell, aspect)
 			kind := strings.Join(strings.Fields(strings.TrimPrefix(sig, "composite "))[:1], " ")
-			pendingReports = append(pendingReports, c3Pending{sig, cs.sweep, rp, kind, kindSeen[kind]})
+			rank := kindSeen[kind]
+			if strings.Contains(sig, "(not shrunk)") {
+				rank += 1000
+			}
+			pendingReports = append(pendingReports, c3Pending{sig, cs.sweep, rp, kind, rank})
 			kindSeen[kind]++
 		}
 		if cs.inDomain() {
